@@ -416,6 +416,10 @@ def _sites_in(prog: Program, fi: FuncInfo) -> list[MemoSite]:
                 continue
             if d.text in key_exact:
                 continue
+            # the items of a mapping cover its keys and its values
+            base_ = re.sub(r"\.(values|keys|items)\(\)$", "", d.text)
+            if (base_ + ".items()") in key_exact:
+                continue
             # keys of a mapping do not cover its values
             m = re.match(r"^(.*)\.(values|items)\(\)$", d.text)
             if m and (m.group(1) in key_exact or (m.group(1) + ".keys()") in key_exact):
